@@ -45,3 +45,24 @@ Fixpoint per_req_load (prog : program) (i : nat) (obs : list (list (option nat))
   end.
 Definition check_load (c : program * list (list (option nat))) : list nat :=
   nodup Nat.eq_dec (per_req_load (fst c) 0 (snd c)).
+
+(* ---- fine-grained cases (yield point inside the $_GET fill): program, number of requests, executed
+   schedule, per request (panicked?, answers).  1 = model vs implementation (crash flags; answers of the
+   requests that did not crash); 2 = a read returned foreign data; 5 = a request crashed *)
+From V.C11 Require Import FineModel.
+Definition fcase := (list (list frd) * nat * list nat * list (bool * list (option nat)))%type.
+Fixpoint fper_req (s : fstate) (i : nat) (obs : list (bool * list (option nat))) : list nat :=
+  match obs with
+  | [] => []
+  | (crashed, o) :: rest =>
+      match nth_error (freqs s) i with
+      | None => [1]
+      | Some q =>
+          (if Bool.eqb (fcrashed q) crashed && (crashed || olist_eqb (fgot q) o) then [] else [1]) ++
+          (if forallb (fun v => onat_eqb v (Some (frid i))) o then [] else [2]) ++
+          (if crashed then [5] else [])
+      end ++ fper_req s (S i) rest
+  end.
+Definition check_fcase (c : fcase) : list nat :=
+  let '(prog, n, sched, obs) := c in
+  nodup Nat.eq_dec (fper_req (frun (finit (repeat prog n)) sched) 0 obs).
